@@ -59,6 +59,7 @@ func c16(c *Ctx) {
 	c.uidDispatchInRange("R16.9")
 	c.setsAreOnlyInterpretedByTheResolvers("R16.10")
 	c.parserDoesNotComputeWithSeqNums("R16.11")
+	c.noWrappingIDSuccessor("R16.12")
 
 	// ---- R16.1b / R16.3 conversions ---------------------------------------------------
 	convs, narrow := 0, 0
@@ -1326,4 +1327,54 @@ func (c *Ctx) parserDoesNotComputeWithSeqNums(rule string) {
 		}
 	}
 	R.Check(true, rule, "imap/command|binary operations scanned", "-", fmt.Sprintf("%d binary operations, %d on SeqNum operands", n, bad), "")
+}
+
+// noWrappingIDSuccessor (R16.12): the resolvers never add to a 32-bit id.
+func (c *Ctx) noWrappingIDSuccessor(rule string) {
+	P, R := c.P, c.R
+	R.Explain(rule, "the largest number is a number like any other: in internal/state and internal/session (where the numbers of a client's set are turned into messages) no value of type imap.UID / imap.SeqID is incremented in the 32-bit domain - neither by `+` on the id type nor through the Add helper of the type.  4294967295 is a legal bound (`1:4294967295` is what some clients send for `1:*`); its 32-bit successor is 0, so a half-open search `[lo, hi+1)` selects nothing.  Positions are computed in int (conversions judged by R16.1).  The one legitimate successor in the code base - the next UID of a mailbox in the database layer, bounded by the UID limit check - is outside these packages and serves as the positive example of the pattern.")
+	isID := func(t types.Type) bool {
+		return is32(t) && (engine.IsNamed(t, "imap", "UID") || engine.IsNamed(t, "imap", "SeqID"))
+	}
+	match := func(in ssa.Instruction) string {
+		switch t := in.(type) {
+		case *ssa.BinOp:
+			if t.Op == token.ADD && isID(t.Type()) {
+				return "`+` on " + t.Type().String()
+			}
+		case *ssa.Call:
+			if sc := t.Call.StaticCallee(); sc != nil && engine.ShortName(sc) == "Add" {
+				if rn := engine.RecvNamed(sc); rn != nil && isID(rn) {
+					return rn.Obj().Name() + ".Add"
+				}
+			}
+		}
+		return ""
+	}
+	scanned, elsewhere := 0, 0
+	for _, f := range c.productFuncs() {
+		rel := engine.RelPkg(P.OwnPkgPath(f))
+		inScope := rel == "internal/state" || rel == "internal/session"
+		if rn := engine.RecvNamed(f); rn != nil && isID(rn) {
+			continue // the helper itself
+		}
+		for _, b := range f.Blocks {
+			for _, in := range b.Instrs {
+				w := match(in)
+				if inScope {
+					scanned++
+				}
+				if w == "" {
+					continue
+				}
+				if !inScope {
+					elsewhere++
+					continue
+				}
+				R.Check(false, rule, c.name(f)+"|"+w, P.Pos(in.Pos()), "", "a 32-bit id is incremented ("+w+") where message sets are resolved: for the bound 4294967295 the successor wraps to 0 and the range selects the wrong messages")
+			}
+		}
+	}
+	R.Check(true, rule, "internal/state, internal/session|instructions scanned", "-", fmt.Sprintf("%d instructions scanned, no 32-bit id successor", scanned), "")
+	R.Min(rule, "32-bit id successors elsewhere in the tree (positive example of the pattern)", elsewhere, 1)
 }
